@@ -57,7 +57,7 @@ def write_lines(path, lines):
 # T1: regenerate the tables from the database with the repository's own generators (scratch copy)
 
 def tablegen_differential(chk):
-    scratch = "/var/tmp/verif-scratch-c12-tg"
+    scratch = "/var/tmp/verif-scratch-c12-tg-%d" % os.getpid()   # (per process: concurrent runs of this check must not share it)
     shutil.rmtree(scratch, ignore_errors=True)
     os.makedirs(scratch)
     res = {}
@@ -911,6 +911,9 @@ def _run(chk, tier, args, exe, exe_asan, wd):
             if c is not None:
                 cases.append(c)
                 variant_count[t] += 1
+        for c in cg.width_cases(f):
+            cases.append(c)
+            variant_count["w"] += 1
     if scale < 1.0:
         probes = [f for i, f in enumerate(probes) if (i * scale) % 1.0 < scale]
     n_probe = 0
@@ -935,6 +938,9 @@ def _run(chk, tier, args, exe, exe_asan, wd):
                 cases.append(c)
                 n32["cases"] += 1
                 n32["cases_of_forms_that_exist_in_32_bit_mode_only"] += f["arch"] == "X86"
+        for c in cg.width_cases(f, 32):
+            cases.append(c)
+            variant_count["w"] += 1
     nsh = 16 if tier == "quick" else 64
     shards = [[] for _ in range(nsh)]
     for c in cases:
@@ -957,6 +963,9 @@ def _run(chk, tier, args, exe, exe_asan, wd):
     masked_mem_executed = collections.Counter()
     masked_mem_names = set()
     names32 = set()
+    wstat = collections.Counter()
+    w_accepted, w_executed = collections.defaultdict(set), collections.defaultdict(set)
+    w_names = set()
     for i, argv, rc, out, err in common.parallel_map(run_one, range(nsh)):
         try:
             res = json.loads(out.decode().strip().splitlines()[-1])
@@ -977,6 +986,8 @@ def _run(chk, tier, args, exe, exe_asan, wd):
             cid = rec[0]
             c = by_id[cid]
             if isinstance(rec[1], str):
+                if rec[1] == "wval":
+                    wstat["refused_by_validator_or_assembler"] += 1
                 if rec[1] == "asm":
                     refused.add("%s %s" % (c["name"], c["sig"]))
                 tot["case_" + rec[1]] += 1
@@ -985,6 +996,22 @@ def _run(chk, tier, args, exe, exe_asan, wd):
             if "fx=" in c["line"] and "p" in c["line"].split("fx=")[1].split()[0]:
                 tot["case_probe_run"] += 1
             key = (c["form"], c["arch"], c["opts"], c["extra"], " ".join(G.op_token(o) for o in c["ops"]))
+            # GP operand widths: which widths was every free GP register operand of a form accepted / executed with?
+            fo = forms[c["form"]]["operands"]
+            for oi, op in enumerate(c["ops"]):
+                if op[0] == "R" and op[1] in ("gp16", "gp32", "gp64") and oi < len(fo) and fo[oi]["reg"] not in G.FIXED_REGS:
+                    wk = (c["form"], c["arch"], oi)
+                    w_accepted[wk].add(op[1])
+                    if ok_runs:
+                        w_executed[wk].add(op[1])
+                        if fo[oi]["write"]:
+                            wstat["executed_cases_with_gp_destination_%s" % op[1]] += 1
+            if c["variant"] == "w":
+                wstat["accepted"] += 1
+                if ok_runs:
+                    wstat["accepted_and_executed"] += 1
+                    wstat["accepted_and_executed_operand_is_%s" % ("written" if c["wwritten"] else "read_only")] += 1
+                    w_names.add("%s %s op%d as %s" % (c["name"], c["sig"], c["wop"], c["wwidth"]))
             if ok_runs and c["arch"] == "x86":
                 n32["cases_executed"] += 1
                 n32["cases_executed_of_forms_that_exist_in_32_bit_mode_only"] += forms[c["form"]]["arch"] == "X86"
@@ -1051,6 +1078,11 @@ def _run(chk, tier, args, exe, exe_asan, wd):
             "runs_skipped_destination_undefined_bsf_bsr": tot["zext_skipped_undefined"]},
         "masked_with_plain_memory_operand": {"cases_executed_km": masked_mem_executed["km"], "cases_executed_zm": masked_mem_executed["zm"],
                                              "distinct_instructions": len(masked_mem_names), "cases_generated_km": variant_count["km"], "cases_generated_zm": variant_count["zm"]},
+        "gp_operand_widths": dict(wstat, width_variants_generated=variant_count["w"], refused_by_validator_though_the_non_validating_assembler_emits_the_database_width_no_verdict=tot["width_refused_but_encoded"], images_with_complementary_nonzero_patterns=tot["pattern_images"],
+                                  free_gp_operands_seen=len(w_accepted),
+                                  free_gp_operands_executed_at_fewer_widths_than_accepted=sorted("%s %s op%d: accepted %s executed %s" % (forms[k[0]]["name"], rwgen.form_sig(forms[k[0]]), k[2], sorted(v), sorted(w_executed[k]))
+                                                                                                 for k, v in w_accepted.items() if w_executed[k] != v)[:40],
+                                  widths_beyond_the_database_form_accepted_and_executed=sorted(w_names)[:80]),
         "x86_32_bit_mode": dict(n32, forms=len(runnable32), distinct_instructions_executed=len(names32), images_completed=tot["runs32_ok"]),
         "mov_op_flag": {"cases_judged": tot["movop_cases"], "runs_distinct_registers": tot["movop_runs_distinct"], "runs_one_register": tot["movop_runs_same_reg"],
                         "cases_flag_not_consumed_by_allocator_not_judged": tot["movop_flag_not_consumed"]},
@@ -1082,6 +1114,8 @@ def _run(chk, tier, args, exe, exe_asan, wd):
             "run: kMovOp runs with one register": tot["movop_runs_same_reg"],
             "run: uniqueness probes raising #UD": tot["uniq_ud"],
             "run: cases executed in 32-bit mode": n32["cases_executed"],
+            "run: width variants accepted and executed": wstat["accepted_and_executed"],
+            "run: images with complementary non-zero GP patterns": tot["pattern_images"],
             "run: 32-bit-only forms executed": n32["cases_executed_of_forms_that_exist_in_32_bit_mode_only"],
         })
     empty = [k for k, v in need.items() if not v]
